@@ -68,10 +68,11 @@ StepKind(k) == pend = [kind |-> k]
 Pick == /\ pend = NoPend /\ Len(hist) < GenDepth
         /\ \E k \in Kinds : Possible(k) /\ pend' = [kind |-> k]
         /\ UNCHANGED <<br, heads, commits, tags, wt, dirty, day, last, hist, cscope, otherDirty>>
-\* parameters of the next invocation (tag/push need commit; without a tag only scope default is meaningful, see DESIGN C08)
+\* parameters of the next invocation (tag/push need commit).  An untagged update under scope global / branch leaves the config ahead of the tags: the next update
+\* starts from the tag again and may land on the version the files already show - then there is nothing to commit and git refuses (the `same` case of Update)
 Choose == /\ StepKind("update")
           /\ \E f \in GenFlagSets, c \in BOOLEAN, t \in BOOLEAN, dd \in GenDayStep, al \in BOOLEAN :
-               /\ (t => c) /\ (~t => cscope = "default") /\ (al => otherDirty /\ c)
+               /\ (t => c) /\ (al => otherDirty /\ c)
                /\ pend' = [f |-> f, scope |-> cscope, commit |-> c, tagit |-> t, day |-> day + dd, allow |-> al]
           /\ UNCHANGED <<br, heads, commits, tags, wt, dirty, day, last, hist, cscope, otherDirty>>
 Update ==
@@ -91,7 +92,7 @@ Update ==
                         /\ heads' = [heads EXCEPT ![br] = Len(commits) + 1]
                         /\ tags' = IF tagit THEN tags \cup {[name |-> out, at |-> Len(commits) + 1, ver |-> TagVer(out)]} ELSE tags
                         /\ dirty' = FALSE
-                   ELSE /\ dirty' = (IF commit THEN dirty ELSE TRUE) /\ UNCHANGED <<commits, heads, tags>>
+                   ELSE /\ dirty' = (IF commit \/ same THEN dirty ELSE TRUE) /\ UNCHANGED <<commits, heads, tags>>       \* rewriting the texts the files already show leaves the tree as it was
            ELSE UNCHANGED <<wt, commits, heads, tags, dirty>>
         /\ last' = [act |-> "update", ok |-> ok, start |-> start, new |-> IF ok2 THEN out ELSE None, tagit |-> tagit, commit |-> commit, scope |-> scope, prev |-> wt.cfg]
         /\ Log([act |-> "update", f |-> f, scope |-> scope, commit |-> commit, tagit |-> tagit, day |-> pend.day, allow |-> pend.allow, other_dirty |-> otherDirty, ok |-> ok, start |-> start,
